@@ -1,5 +1,75 @@
-"""C15 - Text layout: positions, alignment, baselines and line breaks are consistent  (metadata; generators live here and/or in props/C15_*.py parts)"""
-CLAIMED = False   # set True by the owner once ./check C15 passes with real theorems
+"""C15 - Text layout: positions, alignment, baselines and line breaks are consistent."""
+from common import *
+import C14 as g
+
 LEVEL = 'proof'
-LEVEL_TEXT = 'TODO'
-LEVEL_NOTE = 'TODO'
+CLAIMED = True
+RULE = ('correspondence c15_text: Text::draw (pixel map on both recording targets, returned position) and Text::bounding_box vs the extracted model, on synthetic '
+        'MonoFont records (spacing 0..3, any atlas, see C14) x 3 alignments x 4 baselines x line heights Pixels(0..40)/Percent(0..400) x 16 colour/decoration roles x '
+        'strings with 0..4 line breaks as LF or CR LF, empty lines, trailing newline, lone/double CR, unmapped characters x small and +-2^20 positions. '
+        'search p_c15 (real built-in fonts, independent arithmetic): per line alignment of the measure_string box (starts at / ends at / centred within half a pixel), '
+        'k-th line k*line_height lower, every glyph cell against font.image (C14 reference), draw returns measure_string next position, bounding box = hull of the '
+        'line boxes, baseline = Top moved by the documented offset, text with LF = parts drawn separately, CR LF = LF, left-aligned chaining s1 then s2 = s1+s2.')
+EXHAUSTIVE = {'quick': False, 'thorough': False}
+ASSUMPTIONS = g.ASSUMPTIONS + ['chaining is stated for left alignment, fonts without spacing and s1 not ending in CR; CR LF = LF for lines whose content does not itself end in CR '
+                               '(Text strips exactly one trailing CR per line)']
+TRUSTED = ['modelled, not verified: str::split(\'\\n\') / strip_suffix(\'\\r\') on code point lists (UTF-8 continuation bytes cannot be 0x0A/0x0D); exercised by non-ASCII cases']
+PARTIAL = []
+LEVEL_TEXT = ('Proof: 16 Coq theorems over the model of Text::lines/draw/bounding_box + MonoTextStyle (any font record): draw_string and Text::draw return the position '
+              'measure_string predicts (for spacing 0 - every built-in font, by reflection over the regenerated table - or any colour set); drawing s1 then s2 at the returned '
+              'position gives the pixel map and returned position of s1+s2 (left aligned, no spacing, also after complete lines); the k-th line is k line heights lower and its '
+              'box starts at / ends at / is centred within half a pixel on x; the baseline setting is exactly a vertical move by the documented offset; text with "\\n" equals '
+              'its parts drawn separately; "\\r\\n" gives the same lines, calls, returned position and bounding box as "\\n".')
+LEVEL_NOTE = ('Trusted: Coq kernel, extraction, drivers; the model is tied to the code by differential runs on synthetic fonts and by the p_c15 property search on all '
+              'built-in fonts. Observation (not a violation of the statement): with spacing > 0 and neither text nor background colour draw_string advances by n*(cw+sp) '
+              'while measure_string predicts n*(cw+sp)-sp; a line content ending in CR loses that CR even without a following LF.')
+
+
+def trivial(line, res):
+    return res.startswith(' N ') or res in ('', 'none', '0')
+
+
+def line(rng, chars, maxlen=5):
+    return g.text_from(rng, [c for c in chars if c not in (10, 13)], maxlen)
+
+
+def multiline(rng, chars, clean=False):
+    """code points of a text with 0..4 line breaks (LF or CR LF); unless clean also lone / double CR"""
+    out = []
+    n = rng.choice([1, 1, 2, 2, 3, 4, 5])
+    for k in range(n):
+        l = [c for c in line(rng, chars) if c not in (10, 13)]
+        if not clean and rng.random() < 0.08:
+            l = l + [13]
+        out += l
+        if k + 1 < n:
+            out += [13, 10] if rng.random() < 0.4 else [10]
+    if not clean and rng.random() < 0.1:
+        out += [13]
+    return out
+
+
+def tstyle(rng):
+    k = rng.randrange(2)
+    v = rng.choice([0, 1, 5, 8, 10, 13, 20, 40]) if k == 0 else rng.choice([0, 50, 99, 100, 101, 150, 200, 400])
+    return (rng.randrange(3), rng.randrange(4), k, v)
+
+
+def cases(tier, rng):
+    n = 5000 if tier == 'quick' else 100000
+    for k in range(n):
+        data = g.mapping_string(rng)
+        chars = g.expand(data)
+        f = g.synth_font(rng, len(chars))
+        x, y = g.position(rng)
+        yield J('c15_text', *f, *g.style(rng, k % 16), *tstyle(rng), x, y, rng.randrange(0, len(chars) + 3), g.lst(data), g.lst(multiline(rng, chars)))
+
+
+def search(tier, rng):
+    maps, fonts = g.table()
+    n = 5000 if tier == 'quick' else 100000
+    for k in range(n):
+        name, mi = fonts[k % len(fonts)] if k < 2 * len(fonts) else fonts[rng.randrange(len(fonts))]
+        x, y = g.position(rng)
+        chars = maps[mi][1]
+        yield J('p_c15', name, *g.style(rng, k % 16), *tstyle(rng), x, y, g.lst(multiline(rng, chars)), g.lst(line(rng, chars, 4)))
